@@ -234,9 +234,76 @@ pub fn c10(rep: &mut Report, aux: &str, thorough: bool, seed: u64) {
 
 /// The case-insensitive half of C18: escape(s) under i / iu / iv finds exactly the
 /// case-insensitive occurrences of s.
+/// Long strings (17..=70 characters: the emitter chunks literals into byte sequences of up to 16 bytes and the
+/// start predicate only sees the head): cased characters followed by long caseless runs (digits, punctuation,
+/// CJK), searched in a haystack made of a case variant and of near misses that differ from it at ONE position,
+/// for EVERY position.
+fn c18_long(rep: &mut Report, f: &Fold, rng: &mut Rng, n: usize) {
+    let caseless: Vec<u32> = "0123456789-:_ /#@;'\"".chars().map(|c| c as u32).chain([0x4E2D, 0x6587, 0x3042, 0x20AC]).collect();
+    let cased: Vec<u32> = vec!['T' as u32, 'k' as u32, 's' as u32, 0xE9, 'A' as u32, 'z' as u32, 0x3C3, 0x10428];
+    for round in 0..n {
+        let l = 17 + rng.below(54);
+        let s: Vec<u32> = (0..l)
+            .map(|k| if k == 0 && round % 4 != 3 || rng.chance(1, 12) { *rng.pick(&cased) } else { *rng.pick(&caseless) })
+            .collect();
+        let st = ast::to_string(&s);
+        let esc = regress::escape(&st);
+        for flags in ["i", "iu", "iv", "", "u"] {
+            let unicode = flags.contains('u') || flags.contains('v');
+            let icase = flags.contains('i');
+            let Ok(re) = compile(&esc, flags, false) else {
+                rep.violation("impl-vs-spec:C18", format!("escape({:?}) does not compile under {:?}", st, flags), st.clone());
+                continue;
+            };
+            let variant: Vec<u32> = if icase { s.iter().map(|c| *rng.pick(&f.class(*c, unicode))).collect() } else { s.clone() };
+            let mut hay: Vec<u32> = variant.clone();
+            for k in 0..variant.len() {
+                let mut miss = variant.clone();
+                let c = miss[k];
+                let mut r = *rng.pick(&caseless);
+                if f.canon(r, unicode) == f.canon(c, unicode) || r == c {
+                    r = '~' as u32;
+                }
+                miss[k] = r;
+                hay.push('|' as u32);
+                hay.extend(miss.iter());
+            }
+            hay.push('|' as u32);
+            hay.extend(variant.iter());
+            let h = ast::to_string(&hay);
+            let hc: Vec<(usize, char)> = h.char_indices().collect();
+            let same = |a: u32, b: u32| if icase { f.canon(a, unicode) == f.canon(b, unicode) } else { a == b };
+            let mut want: Vec<(usize, usize)> = vec![];
+            let mut i = 0;
+            while i + s.len() <= hc.len() {
+                if (0..s.len()).all(|k| same(hc[i + k].1 as u32, s[k])) {
+                    let end = if i + s.len() < hc.len() { hc[i + s.len()].0 } else { h.len() };
+                    want.push((hc[i].0, end));
+                    i += s.len();
+                } else {
+                    i += 1;
+                }
+            }
+            let got: Vec<(usize, usize)> = re.find_iter(&h).map(|m| (m.start(), m.end())).collect();
+            rep.case(&format!("long {}/{}", st, flags), true);
+            rep.count(&format!("long:{}", flags));
+            if got != want {
+                let mut all = s.clone();
+                all.extend(hay.iter());
+                rep.violation(
+                    "impl-vs-oracle:C18",
+                    format!("escape({:?}) under {:?}: occurrences among the one-position near misses {:?}, found {:?}", st, flags, want, got),
+                    ctx(flags, &all),
+                );
+            }
+        }
+    }
+}
+
 pub fn c18_icase(rep: &mut Report, aux: &str, n: usize, seed: u64) {
     let f = Fold::load(aux);
     let mut rng = Rng::new(seed);
+    c18_long(rep, &f, &mut rng, (n / 2).max(100));
     let alpha: Vec<u32> = vec![
         'k' as u32, 'K' as u32, 0x212A, 's' as u32, 'S' as u32, 0x17F, 'a' as u32, 'A' as u32, 0xE9, 0xC9, 0xDF, 0x1E9E, '.' as u32, '(' as u32,
         ')' as u32, '$' as u32, '1' as u32, 0x3C3, 0x3C2, 0x3A3, 0x10400, 0x10428, 'i' as u32, 'I' as u32, 0x131, 0x130, ' ' as u32, 0x1C5, 0x1C4,
